@@ -112,8 +112,12 @@ func init() {
 	})
 	register(symPkg+"Choice", func(fr *frame, args []value) value {
 		r := fr.run()
+		name := cstr(args[0])
+		if k, ok := r.choices[name]; ok {
+			return int(k) // a named input has one value per path
+		}
 		k := r.choose(int(asInt64(args[1])))
-		r.choices[cstr(args[0])] = int64(k)
+		r.choices[name] = int64(k)
 		return k
 	})
 	register(symPkg+"Assume", func(fr *frame, args []value) value {
